@@ -567,6 +567,12 @@ func (sc *SpecCtx) call(e *Expr) Value {
 			t = v.Arr
 		}
 		return boolV(fmt.Sprintf("(>= %s %s)", t, sc.brkOld()))
+	case "tquo", "trem", "fdiv": // Go truncated quotient / remainder, floor division (positive divisor)
+		a, b := sc.eval(e.Args[0]), sc.eval(e.Args[1])
+		if sc.nbind == 0 {
+			st.assume(divFacts(a.T, b.T, types.Typ[types.Int64]))
+		}
+		return intV("(" + e.Name + " " + a.T + " " + b.T + ")")
 	case "byteat": // byteat(a, i): byte i of backing array a
 		a, i := sc.eval(e.Args[0]), sc.eval(e.Args[1])
 		h := st.heapTermIn(sc.cur, "elem:uint8", 2, "Int")
@@ -634,15 +640,29 @@ func (sc *SpecCtx) call(e *Expr) Value {
 		return r
 	}
 	if f, ok := cs.SmtFuns[e.Name]; ok {
-		if len(f.Args) != len(e.Args) {
-			sc.fail("spec function %s expects %d args", e.Name, len(f.Args))
+		var flat []Value
+		var flatten func(v Value)
+		flatten = func(v Value) {
+			if v.K == VStruct {
+				for _, fv := range v.Fs {
+					flatten(fv)
+				}
+				return
+			}
+			flat = append(flat, v)
 		}
-		var args []string
-		for i, a := range e.Args {
+		for _, a := range e.Args {
 			v := sc.eval(a)
 			if v.K == VAddr {
 				v = st.addrToRef(v)
 			}
+			flatten(v)
+		}
+		if len(f.Args) != len(flat) {
+			sc.fail("spec function %s expects %d (flattened) args, got %d", e.Name, len(f.Args), len(flat))
+		}
+		var args []string
+		for i, v := range flat {
 			if v.K >= VSlice && v.K != VArray {
 				sc.fail("aggregate argument to spec function %s", e.Name)
 			}
